@@ -77,6 +77,15 @@ mut("iadd_returns_new_object", "src/vector/backends/object.py", "        return 
 mut("awkward_wrap_rhophi_swapped", "src/vector/backends/awkward.py", '            elif returns[0] is AzimuthalRhoPhi:\n                names.extend(["rho", "phi"])\n                arrays.extend([result[0], result[1]])\n\n            if returns[1] is LongitudinalZ:\n                names.append("z")\n                arrays.append(result[2])\n            elif returns[1] is LongitudinalTheta:\n                names.append("theta")\n                arrays.append(result[2])\n            elif returns[1] is LongitudinalEta:\n                names.append("eta")\n                arrays.append(result[2])\n\n            if returns[2] is TemporalT:',
     '            elif returns[0] is AzimuthalRhoPhi:\n                names.extend(["rho", "phi"])\n                arrays.extend([result[1], result[0]])\n\n            if returns[1] is LongitudinalZ:\n                names.append("z")\n                arrays.append(result[2])\n            elif returns[1] is LongitudinalTheta:\n                names.append("theta")\n                arrays.append(result[2])\n            elif returns[1] is LongitudinalEta:\n                names.append("eta")\n                arrays.append(result[2])\n\n            if returns[2] is TemporalT:', ["C03"], "Awkward 4D results in rho-phi systems have rho and phi swapped")
 mut("numpy_wrap_reuses_operand_memory", "src/vector/backends/numpy.py", "            out = numpy.empty(_shape_of(result), dtype=dtype)\n            for i, name in enumerate(_coordinate_class_to_names[returns[0]]):\n                out[name] = result[i]\n            return out.view(cls.ProjectionClass2D)",
-    "            out = (\n                self.view(numpy.ndarray)\n                if self.dtype == numpy.dtype(dtype) and self.shape == _shape_of(result)\n                else numpy.empty(_shape_of(result), dtype=dtype)\n            )\n            for i, name in enumerate(_coordinate_class_to_names[returns[0]]):\n                out[name] = result[i]\n            return out.view(cls.ProjectionClass2D)", ["C16"], "2D NumPy results are written into the operand's own memory when the dtypes match")
+    "            out = (\n                self.view(numpy.ndarray)\n                if self.dtype == numpy.dtype(dtype) and self.shape == _shape_of(result)\n                else numpy.empty(_shape_of(result), dtype=dtype)\n            )\n            for i, name in enumerate(_coordinate_class_to_names[returns[0]]):\n                out[name] = result[i]\n            return out.view(cls.ProjectionClass2D)", ["C16"], "2D NumPy results are written into the operand's own memory when the dtypes match", count=None)
 mut("object_scale_mutates_self", "src/vector/_compute/planar/scale.py", "    with numpy.errstate(all=\"ignore\"):\n        return v._wrap_result(", "    with numpy.errstate(all=\"ignore\"):\n        if hasattr(v, \"__slots__\") and factor == -1 and _aztype(v) is AzimuthalXY:\n            v.azimuthal = type(v.azimuthal)(-v.azimuthal[0], -v.azimuthal[1])\n            return v\n        return v._wrap_result(", ["C16", "C03"], "a 'fast path' negates a 2D object vector in place and returns it")
 mut("numpy_toarrays_float32", "src/vector/backends/numpy.py", "x if isinstance(x, numpy.ndarray) else numpy.array([x], numpy.float64)", "x if isinstance(x, numpy.ndarray) else numpy.array([x], numpy.float32)", ["C03"], "scalars broadcast against NumPy arrays are rounded to float32")
+
+# --- reductions (C17) and Awkward structure (C18) -----------------------------------------------------------------
+mut("numpy_reduce_sum_fieldwise_rho", "src/vector/backends/numpy.py", '    fields["px"] = numpy.sum(a.x, axis=axis, keepdims=keepdims)', '    fields["px"] = numpy.sum(a.rho, axis=axis, keepdims=keepdims) * numpy.cos(numpy.sum(a.phi, axis=axis, keepdims=keepdims))', ["C17"], "NumPy sum combines rho and phi field-wise instead of summing x")
+mut("awkward_count_nonzero_ignores_z", "src/vector/backends/awkward.py", "    if isinstance(array, Spatial):\n        is_nonzero = numpy.logical_or(is_nonzero, array.z != 0)\n    if isinstance(array, Lorentz):\n        is_nonzero = numpy.logical_or(is_nonzero, array.t2 != 0)\n\n    return ak.count_nonzero(is_nonzero, axis=1)",
+    "    if isinstance(array, Lorentz):\n        is_nonzero = numpy.logical_or(is_nonzero, array.t2 != 0)\n\n    return ak.count_nonzero(is_nonzero, axis=1)", ["C17"], "ak.count_nonzero ignores the longitudinal component")
+mut("awkward_reduce_sum_loses_flavor", "src/vector/backends/awkward.py", '        with_name=layout.purelist_parameter("__record__"),', '        with_name=layout.purelist_parameter("__record__").replace("Momentum", "Vector"),', ["C17"], "ak.sum of a momentum array returns a generic vector")
+mut("awkward_wrap_drops_extra_4d", "src/vector/backends/awkward.py", '                        "energy",\n                    ):\n                        names.append(name)\n                        arrays.append(self[name])\n\n            return maybe_record(\n                ak.zip(\n                    dict(zip(names, arrays)),\n                    depth_limit=first.layout.purelist_depth,\n                    with_name=_class_to_name(cls.ProjectionClass4D),',
+    '                        "energy",\n                        "charge",\n                    ):\n                        names.append(name)\n                        arrays.append(self[name])\n\n            return maybe_record(\n                ak.zip(\n                    dict(zip(names, arrays)),\n                    depth_limit=first.layout.purelist_depth,\n                    with_name=_class_to_name(cls.ProjectionClass4D),', ["C18"], "4D vector-valued results drop a field named charge")
+mut("awkward_wrap_depth_limit_off_by_one", "src/vector/backends/awkward.py", "                    depth_limit=first.layout.purelist_depth,\n                    with_name=_class_to_name(cls.ProjectionClass3D),", "                    depth_limit=max(1, first.layout.purelist_depth - 1),\n                    with_name=_class_to_name(cls.ProjectionClass3D),", ["C18", "C03"], "3D results are zipped one level too shallow (records of lists instead of lists of records)")
